@@ -13,6 +13,7 @@ def fnv1a (s : String) : Nat :=
 def goTypeName (t : Nat) : String :=
   if t == 40 then "json.RawMessage"       -- the event type that is a pre-encoded document
   else if t == 41 then "*main.T41"        -- the event type published as a pointer
+  else if t == 46 then "main.G46[main.gItem]"   -- a generic event type
   else if t ≥ 42 then "main.U0" ++ toString (t - 40)   -- U02..U05: chosen so that all 32 shards are hit
   else "main.T" ++ (if t < 10 then "0" else "") ++ toString t
 
@@ -86,7 +87,7 @@ structure Parsed where
   cfg : Config := {}
   faults : List Bool := []
   bodies : Array (List Action) := #[]
-  main : Array (Action ⊕ Bool) := #[]     -- an action, or `SetPanicHandler` (some handler / nil) between actions
+  main : Array (Action ⊕ (String × Bool)) := #[]     -- an action, or a configuration setter called between actions
   bad : Array String := #[]
 
 def splitOnSemi (ws : List String) : List (List String) :=
@@ -113,7 +114,9 @@ def parseCase (lines : Array String) : Parsed := Id.run do
       while bs.size ≤ i do bs := bs.push []
       p := { p with bodies := bs.set! i acts }
     | ["subnil", _, _] => pure ()     -- Subscribe with a nil option: refused, nothing changes (the harness checks the refusal)
-    | ["setpanich", b] => p := { p with main := p.main.push (.inr (bool! b)) }
+    | ["setpanich", b] => p := { p with main := p.main.push (.inr ("panich", bool! b)) }
+    | ["sethook", k, b] => p := { p with main := p.main.push (.inr (k, bool! b)) }
+    | ["setperrh", b] => p := { p with main := p.main.push (.inr ("perrh", bool! b)) }
     | ws =>
       match parseAction ws with
       | some a => p := { p with main := p.main.push (.inl a) }
@@ -148,7 +151,10 @@ def runCase (lines : Array String) : Array String :=
   let (s, _) := p.main.toList.foldl (fun (sc : St _ × Config) item =>
     match item with
     | .inl a => (exec I sc.2 1000000 {} sc.1 a, sc.2)
-    | .inr b => (sc.1, { sc.2 with panicH := b })) (initSt I p.faults, cfg)
+    | .inr (k, b) =>
+      (sc.1, if k == "panich" then { sc.2 with panicH := b } else if k == "bl" then { sc.2 with hookBL := b }
+             else if k == "al" then { sc.2 with hookAL := b } else if k == "perrh" then { sc.2 with perrH := b } else sc.2))
+    (initSt I p.faults, cfg)
   let isObs : Ev → Bool := fun e => match e with | .obs .. => true | _ => false
   let shown := if p.otel then s.c.trace.filter (fun e => !isObs e) else s.c.trace
   let out := (shown.map showEv).toArray
